@@ -57,7 +57,9 @@ Print Assumptions C11_tables.
      (a) bracket characters that are unbalanced inside quoted attribute values or text,
      (b) '<' (or a backslash / an unpaired quote) inside attributes or text,
      (c) characters outside the extractor's alphabet (e.g. ',' and ' ' inside stylesheet
-         function arguments, non-ASCII letters in names). *)
+         function arguments, non-ASCII letters in names),
+     (d) a complete tag to the left whose names contain a character outside letters, digits, `-`, `:`
+         ([tag_ok] demands exactly that class). *)
 Theorem C11_extract_roundtrip_partial :
   forall (o : opts) (L A1 C R : str),
     let mk := is_markup o in
@@ -120,6 +122,13 @@ Proof. split; [vm_compute; discriminate|vm_compute; reflexivity]. Qed.
 Example C11_extract_roundtrip_refuted_stylesheet_arguments :
   extract_abbreviation [108; 103; 40; 97; 44; 98; 41] None (mkOpts [115; 116; 121; 108; 101; 115; 104; 101; 101; 116] true []) <> whole [108; 103; 40; 97; 44; 98; 41].
 Proof. vm_compute. discriminate. Qed.
+
+(* (d)  <a data_x>p : the complete tag to the left spells an attribute name with `_`, which the tag heuristic's
+   identifier class (letters, digits, `-`, `:`) does not contain: `data_x>p` is returned instead of `p`
+   (listed finding roundtrip:tag-name-character-outside-letters-digits-dash-colon) *)
+Example C11_extract_roundtrip_refuted_tag_name_character :
+  extract_abbreviation [60; 97; 32; 100; 97; 116; 97; 95; 120; 62; 112] None default_opts = Some (mkExtracted [100; 97; 116; 97; 95; 120; 62; 112] 3%Z 3%Z 11%Z).
+Proof. vm_compute. reflexivity. Qed.
 
 (* before the repair of is_html (commit d686cc9) the model returned only  a  for  li[title=x]*3>a ;
    now it is inside the grammar and round-trips *)
